@@ -72,6 +72,7 @@ class Scheduler:
         self.segments: list[list[int]] = []     # recorded schedule [[thread, steps], ...]
         self.switches = 0
         self.log = hashlib.sha256()              # event log digest (never draws, never reads a clock)
+        self.items = None                        # debugging aid: the log entries themselves
         self.pairs: set[str] = set()             # (preempted function -> resumed function) reach measure
         self.where = [''] * nthreads             # last known location of each thread
         self.op_steps = [0] * nthreads           # steps since the current op of a thread began
@@ -157,6 +158,8 @@ class Scheduler:
             loc = f'{co.co_filename.rsplit("/", 1)[-1]}:{co.co_name}:{frame.f_lineno}'
             self.where[i] = f'{co.co_filename.rsplit("/", 1)[-1]}:{co.co_name}'
             self.log.update(f'S{i}>{j}@{loc};'.encode())
+            if self.items is not None:
+                self.items.append(f'S{i}>{j}@{loc}')
             self.pairs.add(f'{self.where[i]}|{self.where[j]}')
         else:
             self.log.update(f'S{i}>{j};'.encode())
@@ -322,6 +325,8 @@ class Scheduler:
     def note(self, text: str):
         """Adds an op outcome to the event log digest."""
         self.log.update(text.encode())
+        if self.items is not None:
+            self.items.append(text)
 
     def digest(self) -> str:
         return self.log.hexdigest()[:24]
